@@ -1589,6 +1589,9 @@ sf_seek	(SNDFILE *sndfile, sf_count_t offset, int whence)
 
 		retval = psf->seek (psf, new_mode, seek_from_start) ;
 
+		if (retval < 0)
+			return PSF_SEEK_ERROR ;
+
 		switch (new_mode)
 		{	case SFM_READ :
 					psf->read_current = retval ;
